@@ -268,6 +268,62 @@ def gen_keydetect(rng, tier):
     return out
 
 
+def gen_ties(rng, tier):
+    """Timestamps that are exact ties between two ticks: multiples of 1/32 s (2812.5 ticks; mode d32).  32 / 16 fps
+    video, reordered video whose presentation and decode times are both ties, audio on the same grid."""
+    out = []
+    F = {'bytes': False, 'timing': True, 'tree': False, 'raw': False}
+    pats = [[0, 1, 2, 3, 4, 5], [1, 2, 3, 4], [0, 2, 4, 6], [1, 3, 5, 7, 9], [5, 6, 9, 10, 13], [0, 1, 5, 6, 7]]
+    for vc in ('h264', 'vp9'):
+        for ac in ('none', 'opus', 'aac'):
+            for pat in pats:
+                for shape in ('plain', 'reorder', 'delay'):
+                    cfg = base_cfg(vc, ac, mode='d32')
+                    cfg['facets'] = F
+                    calls = []
+                    for k, j in enumerate(pat):
+                        data = video_frame(rng, vc, k == 0, 3 + k)
+                        if shape == 'plain':
+                            calls.append({'op': 'wv', 'pts': fin(j), 'data': data, 'key': k == 0})
+                        elif shape == 'delay':
+                            calls.append({'op': 'wvd', 'pts': fin(j + 1), 'dts': fin(j), 'data': data, 'key': k == 0})
+                        else:
+                            p = j + (3 if k % 3 == 0 else 0 if k % 3 == 1 else 1)
+                            calls.append({'op': 'wvd', 'pts': fin(p), 'dts': fin(j), 'data': data, 'key': k == 0})
+                        if ac != 'none' and k < 4:
+                            first = calls[0]['pts']['n']
+                            calls.append({'op': 'wa', 'pts': fin(max(first, j) + (k % 2)), 'data': audio_frame(rng, ac, 4)})
+                    calls.append({'op': 'fin', 'how': 'in_place_stats'})
+                    # keep audio non-decreasing
+                    last = -1
+                    ok = True
+                    for c in calls:
+                        if c['op'] == 'wa':
+                            if c['pts']['n'] < last:
+                                c['pts'] = fin(last)
+                            last = c['pts']['n']
+                    out.append({'cfg': cfg, 'calls': calls})
+    # frames that END in a start code (3 / 4 bytes, after zeros), and parameter sets followed by zero bytes before the next
+    # start code: the stored sample and the configuration record follow the same unit boundaries
+    for vc in ('h264', 'h265'):
+        sps, pps = (SPS_A, PPS_A) if vc == 'h264' else (HSPS, HPPS)
+        pre = [] if vc == 'h264' else SC4 + HVPS
+        idr = [0x65, 0x88, 0x84] if vc == 'h264' else [0x26, 0x01, 0xaf]
+        dlt = [0x41, 0x9a, 0x22] if vc == 'h264' else [0x02, 0x01, 0xd0]
+        for tail in ([], SC3, SC4, [0] + SC3, [0, 0] + SC4, SC3 + SC3):
+            for z1 in (0, 1, 2):
+                for z2 in (0, 1):
+                    for sc in (SC3, SC4):
+                        cfg = base_cfg(vc, 'none')
+                        cfg['facets'] = {'bytes': True, 'timing': False, 'tree': False, 'raw': True}
+                        key = pre + sc + sps + [0] * z1 + sc + pps + [0] * z2 + SC3 + idr + tail
+                        calls = [{'op': 'wv', 'pts': fin(0), 'data': key, 'key': True},
+                                 {'op': 'wv', 'pts': fin(9000), 'data': SC4 + dlt + tail, 'key': False},
+                                 {'op': 'fin', 'how': 'in_place_stats'}]
+                        out.append({'cfg': cfg, 'calls': calls})
+    return out
+
+
 def gen_sink_histories(rng, tier, mode):
     out = []
     combos = [('h264', 'none', True, False), ('h264', 'none', False, False), ('h264', 'aac', True, False),
@@ -638,6 +694,22 @@ def gen_metalayout(rng, tier):
             if ac != 'none':
                 calls.append({'op': 'wa', 'pts': fin(6400), 'data': audio_frame(rng, ac, 7)})
             calls.append({'op': 'fin', 'how': 'in_place_stats'})
+            out.append({'cfg': cfg, 'calls': calls})
+    # a large sample (>= 64 KiB) that is neither the first nor the last in timestamp order, with audio around it
+    for vc, ac in (('h264', 'aac'), ('vp9', 'opus')):
+        for big in (65535, 65536, 70000):
+            cfg = base_cfg(vc, ac)
+            cfg['facets'] = F
+            bigframe = video_frame(rng, vc, False, 3)
+            bigframe = bigframe + [((i * 31) % 200) + 20 for i in range(big - len(bigframe) - (4 if vc == 'h264' else 0))]
+            calls = [{'op': 'wv', 'pts': fin(0), 'data': video_frame(rng, vc, True, 4), 'key': True},
+                     {'op': 'wa', 'pts': fin(0), 'data': audio_frame(rng, ac, 5)},
+                     {'op': 'wa', 'pts': fin(6400), 'data': audio_frame(rng, ac, 6)},
+                     {'op': 'wv', 'pts': fin(9000), 'data': bigframe, 'key': False},
+                     {'op': 'wa', 'pts': fin(12800), 'data': audio_frame(rng, ac, 7)},
+                     {'op': 'wv', 'pts': fin(18000), 'data': video_frame(rng, vc, False, 3), 'key': False},
+                     {'op': 'wa', 'pts': fin(19200), 'data': audio_frame(rng, ac, 4)},
+                     {'op': 'fin', 'how': 'in_place_stats'}]
             out.append({'cfg': cfg, 'calls': calls})
     # histories without any sample / with a single sample, every codec, with and without an audio track and metadata
     for vc in ('h264', 'h265', 'av1', 'vp9'):
@@ -1090,7 +1162,8 @@ def gen_cli(rng, tier):
     for (w, h) in [(320, 240), (4096, 2160), (319, 240), (320, 239), (4097, 2160), (4096, 2161), (0, 0), (1920, 1080), (65536, 480)]:
         singles.append({'w': w, 'h': h})
     singles += [{'has_w': False}, {'has_h': False}, {'has_fps': False}]
-    for (t, m) in [('29.97', 29970), ('120', 120000), ('120.001', 120001), ('0', 0), ('0.001', 1), ('1', 1000), ('60', 60000), ('121', 121000)]:
+    for (t, m) in [('29.97', 29970), ('120', 120000), ('120.001', 120001), ('0', 0), ('0.001', 1), ('1', 1000), ('60', 60000), ('121', 121000),
+                   ('NaN', 0), ('nan', 0), ('-NaN', 0), ('inf', 10 ** 9), ('-inf', 0), ('-1', 0), ('-0', 0), ('1e9', 10 ** 9)]:      # (values between 0 and 0.001 are valid rates but not expressible in thousandths: not generated)
         singles.append({'fps_text': t, 'fps_milli': m})
     for enc in ['odd', 'nonhex', 'empty', 'binary', 'missing', 'absent']:
         singles.append({'venc': enc})
@@ -1243,6 +1316,8 @@ def generate(kind, n, seed, tier):
         return gen_fragreject(rng, tier)
     if kind == 'keydetect':
         return gen_keydetect(rng, tier)
+    if kind == 'ties':
+        return gen_ties(rng, tier)
     if kind == 'meta':
         return gen_meta(rng, tier)
     if kind == 'metalayout':
